@@ -958,20 +958,68 @@ class WriteSwitch(Unit):
         enabled = bool(E.fork(2, 'enabled'))
         thr = E.new_int('thr')
         conn = harness_connection()
-        conn.__dict__.update(early_outgoing_packet_listeners=[], outgoing_packet_listeners=[], socket='SOCK',
-                             options=types.SimpleNamespace(compression_enabled=enabled, compression_threshold=thr))
+        opts = types.SimpleNamespace(compression_enabled=enabled, compression_threshold=thr)
+        conn.__dict__.update(early_outgoing_packet_listeners=[], outgoing_packet_listeners=[], socket='SOCK', options=opts)
         calls = []
+        # the framing mode can change WHILE the early outgoing listeners of this packet run (the networking thread applies a
+        # set-compression at that moment; a listener may take arbitrarily long): the frame is written in the mode in force when
+        # it is written, not in one sampled earlier (interference injected at the listener call; seeded change C10-r11)
+        switch = bool(E.fork(2, 'mode-changes-during-early-listeners'))
+        thr2 = E.new_int('thr2')
+        if switch:
+            def flip(packet, new_enabled=(not enabled)):
+                opts.compression_enabled = new_enabled
+                opts.compression_threshold = thr2
+            conn.__dict__['early_outgoing_packet_listeners'] = [types.SimpleNamespace(call_packet=flip)]
+            enabled, thr = (not enabled), thr2
 
         class P(object):
             def write(self, *a):
                 calls.append(a)
         I.call(raw(Connection, '_write_packet'), conn, P())
         E.check('switch.args', calls == [('SOCK', thr)] if enabled else calls == [('SOCK',)],
-                note='the connection threshold is passed to Packet.write exactly when compression is enabled')
+                note='the threshold IN FORCE WHEN THE FRAME IS WRITTEN is passed to Packet.write exactly when compression is enabled')
         return None
 
     def replay(self, model, label):
-        return dict(confirmed=False, call='_write_packet switch', observed='')
+        return replay_switch()
+
+    def bounded(self, rng, tier):
+        rp = replay_switch()
+        return dict(name='C01.write.switch.concrete', evaluations=rp['n'], bound='compression off/on x mode changed by an early outgoing '
+                    'listener or not, real Connection._write_packet', failures=[dict(call=rp['call'], observed=rp['observed'],
+                                                                                       witness='write-switch')] if rp['confirmed'] else [])
+
+
+def replay_switch():
+    import itertools
+    from .common import native_connection
+    n = 0
+    for enabled, flips in itertools.product((False, True), (False, True)):
+        n += 1
+        conn = native_connection()
+        opts = types.SimpleNamespace(compression_enabled=enabled, compression_threshold=64)
+        conn.options, conn.socket = opts, 'SOCK'
+        conn.outgoing_packet_listeners = []
+
+        def flip(packet, opts=opts, enabled=enabled):
+            opts.compression_enabled, opts.compression_threshold = (not enabled), 256
+        conn.early_outgoing_packet_listeners = [types.SimpleNamespace(call_packet=flip)] if flips else []
+        calls = []
+
+        class P(object):
+            def write(self, *a):
+                calls.append(a)
+        k, v = native_call(conn._write_packet, P())
+        now_enabled = (not enabled) if flips else enabled
+        want = [('SOCK', 256 if flips else 64)] if now_enabled else [('SOCK',)]
+        got = [tuple(x for x in c if x is not None) if not now_enabled else c for c in calls]
+        if k != 'ok' or got != want:
+            return dict(confirmed=True, n=n, call='_write_packet with compression %s%s' % ('on' if enabled else 'off',
+                        ', switched %s (threshold 256) by the networking thread while an early outgoing listener runs'
+                        % ('off' if enabled else 'on') if flips else ''),
+                        observed='%s; Packet.write%r, the mode in force at the write needs %r' % (k, calls, want))
+    return dict(confirmed=False, n=n, call='_write_packet framing switch', observed='conforms')
 
 
 def _own_units(tier):
